@@ -233,7 +233,8 @@ CacheManager::CheckPassword(const Mgr::Command &cmd)
     if (!cmd.params.password.size())
         return 1;
 
-    return cmd.params.password != pwd;
+    // String comparison stops at the first NUL; also require equal lengths
+    return cmd.params.password.size() != strlen(pwd) || cmd.params.password != pwd;
 }
 
 /**
